@@ -120,7 +120,13 @@ func runRKG(c RKGCase, rec *h.Rec) error {
 			return h.Failf("C14:CRS:parties-read-different-polynomials", "party %d read other reference polynomials than party 0 after the same %d+1 SampleCRP calls (RKG)", i, len(c.Pre))
 		}
 		eph[i], r1[i], r2[i] = protos[i].AllocateShare(ek)
+		var in inputSnap
+		in.snap("secret-key", w.sks[i].Value)
+		in.snap("crp", f...)
 		protos[i].GenShareRoundOne(w.sks[i], crps[i], eph[i], &r1[i])
+		if err := in.check("RKG", "GenShareRoundOne", i); err != nil {
+			return err
+		}
 	}
 
 	ops1 := rkgOps(protos[0], ek, 1)
@@ -143,7 +149,14 @@ func runRKG(c RKGCase, rec *h.Rec) error {
 				return h.Failf("C14:RKG:aggregation-failed", "round-one aggregate to party %d: %v", i, err)
 			}
 		}
+		var snap inputSnap
+		snap.snap("secret-key", w.sks[i].Value)
+		snap.snap("ephemeral-key", eph[i].Value)
+		snap.snap("round-one-aggregate", gadgetPolys(&in.GadgetCiphertext)...)
 		protos[i].GenShareRoundTwo(eph[i], w.sks[i], in, &r2[i])
+		if err := snap.check("RKG", "GenShareRoundTwo", i); err != nil {
+			return err
+		}
 	}
 	ops2 := rkgOps(protos[0], ek, 2)
 	ref2, _ := refAggregate(r2, ops2)
